@@ -15,6 +15,8 @@ import os
 import random
 import re
 import sys
+import time
+from concurrent.futures import ThreadPoolExecutor
 
 sys.path.insert(0, os.path.dirname(os.path.abspath(__file__)))
 import epoch_common as ec
@@ -26,21 +28,29 @@ DRIVER = "epoch_driver"
 
 
 def record(progs, seeds, strategy, out, jobs=None, extra=None):
-    execs = []
-    status = {}
+    """run every program for the seed range (programs in parallel); returns the executions in program order"""
     os.makedirs(os.path.dirname(out), exist_ok=True)
-    for idx, (prog, ns, nh, pre) in enumerate(progs):
+
+    def one(item):
+        idx, (prog, ns, nh, pre) = item
         raw = "%s.%d.ndjson" % (out, idx)
         args = ["--scenario", "epoch", "--params", ec.params_of(prog, ns, nh, pre), "--strategy", strategy, "--seeds", "%d:%d" % seeds, "--out", raw, "--max-steps", "20000"]
         if strategy != "pb":
-            args += ["-j", str(jobs or 4)]
+            args += ["-j", str(jobs or 2)]
         if extra:
             args += extra
         s = vlib.driver_status(vlib.driver(DRIVER, args))
-        for k, v in s["status"].items():
-            status[k] = status.get(k, 0) + v
-        execs += list(vlib.split_traces(raw))
+        ex = list(vlib.split_traces(raw))
         os.unlink(raw)
+        return ex, s["status"]
+
+    execs = []
+    status = {}
+    with ThreadPoolExecutor(max(2, vlib.NCPU // 2)) as pool:
+        for ex, st in pool.map(one, list(enumerate(progs))):
+            execs += ex
+            for k, v in st.items():
+                status[k] = status.get(k, 0) + v
     return execs, status
 
 
@@ -74,34 +84,56 @@ def run(pid, tier, seed, replay=None):
     mo_committed = os.path.join(SPEC, "mo", "MO_Epoch.tla")
     tdir = os.path.join(vlib.BUILD, "traces")
 
+    # model checking with the committed order table starts right away (re-done below if the code's table differs)
+    mcs = [("sc_quick", "Epoch_sc_q.cfg"), ("wm_quick", "Epoch_wm_q.cfg")]
+    if tier == "thorough":
+        # the "big" ones (2 readers / 2 accessors + 1 writer, 2 objects: 1.5 M / 2.6 M states) may run out of time on a busy machine
+        mcs += [("sc", "Epoch_sc.cfg"), ("wm", "Epoch_wm.cfg"), ("big_wm", "Epoch_big_wm.cfg"), ("big_sc", "Epoch_big_sc.cfg")]
+    mc_timeout = 1700 if tier == "thorough" else 300
+    tag0 = json.dumps(dict(re.findall(r"(\w+) \|-> \"(\w+)\"", open(mo_committed).read())), sort_keys=True)
+    mc_pool = ThreadPoolExecutor(4)
+    spec_runs = {}
+    if not replay:
+        for name, cfg in mcs:
+            spec_runs[name] = mc_pool.submit(vlib.tlc, os.path.join(SPEC, "MC_Epoch.tla"), os.path.join(SPEC, "mc", cfg), cache=True, extra_hash=tag0, timeout=mc_timeout, heap="16g",
+                                             workers=max(2, vlib.NCPU // 2))
+            time.sleep(0.3)
+
     if replay:
         key = json.load(open(replay))
         execs, status = [rerun(key["exec"])], {}
     else:
-        nseeds = 12 if tier == "quick" else 300
-        nrand = 16 if tier == "quick" else 400
-        execs, status = record(ec.FIXED, (seed * 1000 + 1, seed * 1000 + 1 + nseeds), "mix", os.path.join(tdir, pid + "_fixed"), jobs=4 if tier == "quick" else 8)
+        nseeds = 6 if tier == "quick" else 60
+        nrand = 14 if tier == "quick" else 120
+        execs, status = record(ec.FIXED, (seed * 1000 + 1, seed * 1000 + 1 + nseeds), "mix", os.path.join(tdir, pid + "_fixed"), jobs=2)
         rprogs = [ec.gen_program(rng) for _ in range(nrand)]
-        e2, s2 = record(rprogs, (seed * 1000 + 1, seed * 1000 + (4 if tier == "quick" else 9)), "mix", os.path.join(tdir, pid + "_rand"), jobs=3)
+        e2, s2 = record(rprogs, (seed * 1000 + 1, seed * 1000 + (4 if tier == "quick" else 9)), "mix", os.path.join(tdir, pid + "_rand"), jobs=2)
         execs += e2
-        e3, s3 = record(ec.PB, (1, 2), "pb", os.path.join(tdir, pid + "_pb"), extra=["--pb-bound", "2" if tier == "quick" else "3", "--max-execs", "150" if tier == "quick" else "20000"])
+        e3, s3 = record(ec.PB, (1, 2), "pb", os.path.join(tdir, pid + "_pb"), extra=["--pb-bound", "2" if tier == "quick" else "3", "--max-execs", "40" if tier == "quick" else "600"])
         execs += e3
         for s in (s2, s3):
             for k, v in s.items():
                 status[k] = status.get(k, 0) + v
     V.extra["executions"] = len(execs)
+    V.extra["record_wall_s"] = round(time.time() - V.t0, 1)
     V.extra["exec_status"] = status
     bad_status = {k: v for k, v in status.items() if k not in ("ok",)}
     if bad_status.get("crash") or bad_status.get("hang"):
         log("NOTE: executions ended with %s" % bad_status)
 
     results = {}
-    for name, tla, cfg, conv in (
+    layers = (
         ("L1", os.path.join(SPEC, "Epoch_Mon.tla"), os.path.join(SPEC, "mc", "Epoch_Mon.cfg"), ec.monitor_lines),
         ("L2", os.path.join(SPEC, "Epoch_Trace.tla"), os.path.join(SPEC, "mc", "Epoch_Trace.cfg"), ec.normalise),
-    ):
-        lines = [conv(ex) for ex in execs]
-        acc, issues, st = vlib.check_traces(tla, cfg, lines, pid + "_" + name, max_rounds=4)
+    )
+    with ThreadPoolExecutor(2) as pool:
+        futs = {}
+        for name, tla, cfg, conv in layers:
+            futs[name] = pool.submit(ec.check_traces, tla, cfg, [conv(ex) for ex in execs], pid + "_" + name, 4)
+            time.sleep(0.2)   # vlib.tlc derives its scratch directory from pid + milliseconds
+        checked = {name: f.result() for name, f in futs.items()}
+    for name, tla, cfg, conv in layers:
+        acc, issues, st = checked[name]
         results[name] = (acc, issues, st)
         V.cov["transitions"] += st["states"]
         V.extra["trace_" + name] = {"accepted": acc, "issues": len(issues), "tlc_states": st["states"], "wall_s": round(st["wall"], 1), "unchecked": st["unchecked"]}
@@ -128,7 +160,7 @@ def run(pid, tier, seed, replay=None):
             if not replay:
                 ex2 = rerun(key)
                 lines2 = [conv(ex2)] if ex2 else []
-                _, iss2, _ = vlib.check_traces(tla, cfg, lines2, pid + "_re") if lines2 else (0, [], {})
+                _, iss2, _ = ec.check_traces(tla, cfg, lines2, pid + "_re") if lines2 else (0, [], {})
                 if not iss2:
                     raise vlib.Broken("violation %s did not reproduce on re-execution of %s" % (what, json.dumps(key)))
             rp = vlib.save_replay(pid, "%s_%s_%d.json" % (name, what, iss.exec_index), {"exec": key, "clause": what, "layer": name, "line": iss.line, "trace": ex[:400]})
@@ -150,15 +182,18 @@ def run(pid, tier, seed, replay=None):
     # ---- TLC on the L2 model with the code's orders
     lib = [os.path.dirname(mo_path)] if mo_path else []
     tag = json.dumps(table, sort_keys=True)
-    mcs = [("sc_quick", "Epoch_sc_q.cfg"), ("wm_quick", "Epoch_wm_q.cfg")]
-    if tier == "thorough":
-        mcs += [("sc", "Epoch_sc.cfg"), ("wm", "Epoch_wm.cfg")]
     if not replay:
         for name, cfg in mcs:
-            p = os.path.join(SPEC, "mc", cfg)
-            r = vlib.tlc(os.path.join(SPEC, "MC_Epoch.tla"), p, cache=True, extra_hash=tag, lib_dirs=lib, timeout=1500 if tier == "thorough" else 240, heap="16g")
+            if tag == tag0:
+                r = spec_runs[name].result()      # started before the executions were recorded (committed table)
+            else:
+                r = vlib.tlc(os.path.join(SPEC, "MC_Epoch.tla"), os.path.join(SPEC, "mc", cfg), cache=True, extra_hash=tag, lib_dirs=lib, timeout=mc_timeout, heap="16g")
             V.add_tlc(name, r)
             if not r.ok:
+                if r.violation == "timeout" and name.startswith("big_"):
+                    log("NOTE: %s not completed within %d s (optional largest bounds)" % (cfg, mc_timeout))
+                    V.extra.setdefault("mc_incomplete", []).append(cfg)
+                    continue
                 if r.violation in ("tlc_error", "timeout"):
                     raise vlib.Broken("TLC failed on %s: %s" % (cfg, r.error_trace[:2000]))
                 clause = r.violation
